@@ -82,18 +82,41 @@ def sealedOf : Tree → Bool
   | .node m _ => m.sealed
   | .leaf _ => false
 
-/-- the flag a clone is built with is the original's flag, for every kind, on the patched tree … -/
-theorem C07_flags_patched (m : Meta) : cloneSealed Cfg.patched m = m.sealed := by
+/-- the flag a clone is built with is the original's flag, for every kind but `pg.Ref`, on the
+patched tree … -/
+theorem C07_flags_patched (m : Meta) (h : m.kind ≠ .obj clsRef) : cloneSealed Cfg.patched m = m.sealed := by
   unfold cloneSealed
-  cases m.kind <;> simp [Cfg.patched]
+  cases hk : m.kind with
+  | list => simp [Cfg.patched]
+  | dict => rfl
+  | obj c =>
+    have : c ≠ 2 := by
+      intro he; subst he; exact h hk
+    split <;> simp_all
+
+def C07_flags_Full : Prop := ∀ (cfg : Cfg) (m : Meta), cloneSealed cfg m = m.sealed
 
 def C07_flags_pinned_Full : Prop := ∀ m : Meta, cloneSealed Cfg.pinned m = m.sealed
 
-/-- … and for every kind but `list` on the unpatched tree: `pg.List([1], sealed=True).clone()`
-is not sealed (F17). -/
-theorem C07_flags_pinned_partial (m : Meta) (h : m.kind ≠ .list) : cloneSealed Cfg.pinned m = m.sealed := by
+/-- … and for every kind but `list` (F17) and `pg.Ref` (F90) on the unpatched tree. -/
+theorem C07_flags_pinned_partial (m : Meta) (h : m.kind ≠ .list) (h2 : m.kind ≠ .obj clsRef) :
+    cloneSealed Cfg.pinned m = m.sealed := by
   unfold cloneSealed
-  cases hk : m.kind <;> simp_all
+  cases hk : m.kind with
+  | list => exact absurd hk h
+  | dict => rfl
+  | obj c =>
+    have : c ≠ 2 := by
+      intro he; subst he; exact h2 hk
+    split <;> simp_all
+
+/-- F90: `Ref._sym_clone` builds `Ref(value, allow_partial=…)`; a sealed Ref is cloned unsealed
+(in every configuration: not repaired). -/
+theorem C07_counterexample_F90 : ¬ C07_flags_Full := by
+  intro h
+  have := h Cfg.patched { id := 0, parent := none, path := [], kind := .obj clsRef, sealed := true,
+                          accW := false, part := false, ref := some 1 }
+  simp [cloneSealed, clsRef] at this
 
 theorem C07_counterexample_F17 : sealedOf (sealedList.clone Cfg.pinned false 1 none []).1 = false := by decide
 
